@@ -77,7 +77,7 @@ PROPS = {
     ),
     "C06": dict(
         facts=True,
-        families=[dict(name="prestate", args=["-specs", "4,5"]), dict(name="corrupt", args=["-specs", "4"])],
+        families=[dict(name="prestate", args=["-specs", "4,5,21"]), dict(name="corrupt", args=["-specs", "4"])],
         level_text="Theorems C06_frame (a successful checkout `preserved` every pre-existing entry: unchanged, newly "
                    "created, a matching link replaced by a copy of the very object, or a directory whose entries are "
                    "preserved), C06_file_frame, C06_obstructed_fails, over the model of checkout.go for every cache, "
@@ -184,7 +184,7 @@ PROPS = {
         assumptions=["H collision-free on the strings involved", "users do not write through links into the cache"],
     ),
     "C07": dict(
-        families=[dict(name="effects", args=["-specs", "2,8,9,10,13,14"]), dict(name="pipe", args=["-specs", "2,8,9,13"]), dict(name="corrupt", args=["-specs", "8"])],
+        families=[dict(name="effects", args=["-specs", "2,5,8,9,10,13,14,21"]), dict(name="pipe", args=["-specs", "2,8,9,13"]), dict(name="corrupt", args=["-specs", "8"])],
         level_text="Theorems C07_readonly, C07_no_stage_write, C07_no_cache_write, C07_failed_step_unchanged, "
                    "C07_run_only_commands_write, C07_run_without_effects, C07_inputs_untouched, C07_skip_outputs_untouched "
                    "over the whole-program model. proof, partial: absence of other system calls is an audit of runs. Tied "
@@ -243,7 +243,7 @@ PROPS = {
         assumptions=["H collision-free on the strings involved"],
     ),
     "C17": dict(
-        families=[dict(name="stagefile")],
+        families=[dict(name="stagefile"), dict(name="defedit")],
         level_text="Theorems C17_normalise, C17_roundtrip(_loaded) (record level, for any YAML codec that round-trips the "
                    "written value), C17_def_ignores_checksums, C17_def_ignores_order, C17_def_checksum (the definition "
                    "checksum changes exactly when command, working dir, or the sorted checksum-blanked artifact sets "
@@ -292,7 +292,7 @@ PROPS = {
                      "H collision-free on the strings involved"],
     ),
     "C20": dict(
-        families=[dict(name="oldschema"), dict(name="race", race=True)],
+        families=[dict(name="oldschema"), dict(name="race", race=True), dict(name="remote", args=["-specs", "30,31,32,33,34,35"])],
         level_text="Theorems C20_decode_equal (old and current encodings decode to the same manifest), "
                    "C20_rewrite_simulates (rewriting ANY selection of a tree's manifests in the old schema, under their "
                    "own digests with parents re-pointed, gives a cache simulated by the original), C20_checkout_equal, "
